@@ -574,3 +574,6 @@ Proof.
   replace (N.of_nat (length p + length y) <? N.of_nat (length p)) with false by lia.
   rewrite Nat2N.id, take_app. reflexivity.
 Qed.
+
+Lemma encode_size_fast_slow m : encode_slow m = encode m /\ size_slow m = size m.
+Proof. split; [apply encode_fast_slow|apply size_fast_slow]. Qed.
